@@ -163,3 +163,36 @@ Proof.
   replace (lmax Rfops a rest + / 2 - / 2) with (lmax Rfops a rest) by lra.
   apply (gen_edge_knots_min_max (a :: rest)). reflexivity.
 Qed.
+
+(* ---------- SplineTerm.compile (after /repo e1fa477): which knots a term has after a history of compiles ---------- *)
+Lemma spline_compile_idempotent given cat st col :
+  spline_compile Rfops given cat (spline_compile Rfops given cat st col) col = spline_compile Rfops given cat st col.
+Proof.
+  unfold spline_compile. destruct st as [e|], given; try reflexivity;
+    destruct (gen_edge_knots Rfops cat col); reflexivity.
+Qed.
+(* knots not given by the user: after any history, the knots come from the data of the LAST compile only *)
+Theorem compile_history_default cat cols col :
+  spline_compile_history Rfops None cat (cols ++ [col]) = gen_edge_knots Rfops cat col.
+Proof.
+  unfold spline_compile_history. cbn [spline_init fst snd]. rewrite fold_left_app. cbn [fold_left].
+  unfold spline_compile. destruct (fold_left _ cols None); reflexivity.
+Qed.
+(* knots given by the user are kept across every compile *)
+Theorem compile_history_given e cat cols : spline_compile_history Rfops (Some e) cat cols = Some e.
+Proof.
+  unfold spline_compile_history. cbn [spline_init fst snd]. induction cols as [|c cols IH]; [reflexivity|].
+  cbn [fold_left spline_compile]. exact IH.
+Qed.
+(* compiling again on the same data changes nothing *)
+Theorem compile_history_idempotent user cat cols col :
+  spline_compile_history Rfops user cat ((cols ++ [col]) ++ [col]) = spline_compile_history Rfops user cat (cols ++ [col]).
+Proof.
+  unfold spline_compile_history. rewrite !fold_left_app. cbn [fold_left]. apply spline_compile_idempotent.
+Qed.
+Theorem compile_history_default_min_max cols col lo hi :
+  spline_compile_history Rfops None false (cols ++ [col]) = Some (lo, hi) ->
+  In lo col /\ In hi col /\ Forall (fun v => lo <= v <= hi) col.
+Proof. rewrite compile_history_default. apply gen_edge_knots_min_max. Qed.
+Example ex_compile_history : exists e, spline_compile_history Rfops None false ([[5; 7]] ++ [[3; 1; 2]]) = Some e.
+Proof. eexists. reflexivity. Qed.
